@@ -23,7 +23,10 @@ LEVEL = "exploration"
 RULE = ("straight-line forms (nesting <= 3) whose evaluated leaves are the unique variables v0 v1 ...: calls, "
         "method calls (.m o ...), (. o (m ...) [i] attr), list/tuple/set literals, dict displays, get, cut, "
         "arithmetic and comparison operators, chainc, f-strings with conversions and nested format specs, "
-        "decorator lists and class bases, and at top level assert (test leaf falsy in half the forms, so the message "
+        "decorator lists and class bases, function definitions (fn in any value position, defn and (setv r ..) at "
+        "top level; leaves in parameter annotations, defaults, return annotation, decorators - evaluated when the "
+        "definition executes - over plain / positional-only / keyword-only / #* / #** parameters, and in the body, "
+        "which is demanded at run time only when the function is called at once), and at top level assert (test leaf falsy in half the forms, so the message "
         "is evaluated) and try with 2-3 except clauses (the body raises; clause k matches); every leaf is bare or "
         "inside the statement wrapper (do (setv tN vN) tN); every argument/element slot holds a plain operand, #* X, #** X, :k X, "
         "or a long form (unpack-iterable X [Y]) / (unpack-mapping X [Y]) / operand-less. Non-trivial = at least one "
@@ -175,9 +178,11 @@ class Values:
 class RecLocals:
     """Non-dict locals mapping: records reads of leaf names."""
 
-    def __init__(self, values):
+    def __init__(self, values, store=None):
         self.values = values
-        self.store = {}
+        # at module level locals *are* the globals: names bound here must be visible to
+        # nested code objects (function bodies, annotation scopes), so bind into the globals
+        self.store = {} if store is None else store
 
     def __getitem__(self, k):
         if k in self.store:
@@ -215,7 +220,7 @@ def run_recorded(code, special=None):
     out = io.StringIO()
     try:
         with contextlib.redirect_stdout(out), contextlib.redirect_stderr(out):
-            exec(code, g, RecLocals(values))
+            exec(code, g, RecLocals(values, g))
     except Exception as e:
         return log, e
     return log, None
@@ -246,8 +251,13 @@ def observe(ir, meta=None):
                 return dict(outcome="rejected-hy-error", detail=str(getattr(e, "msg", e))[:160])
             except Exception as e:
                 return dict(outcome="rejected-internal-error", detail=type(e).__name__)
+            # annotations on the parameters of a lambda are never evaluated by CPython: a name
+            # that occurs only there does not count as present
+            dead = {id(n) for lam in ast.walk(tree) if isinstance(lam, ast.Lambda)
+                    for a in ast.walk(lam.args) if isinstance(a, ast.arg) and a.annotation is not None
+                    for n in ast.walk(a.annotation)}
             static = {n.id for n in ast.walk(tree) if isinstance(n, ast.Name) and isinstance(n.ctx, ast.Load)
-                      and LEAF.match(n.id)}
+                      and LEAF.match(n.id) and id(n) not in dead}
             res = dict(missing_static=leaves - static, missing_run=None, reads=0)
             try:
                 code = compile(tree, "<c11>", "exec")
@@ -260,6 +270,7 @@ def observe(ir, meta=None):
         if exc is not None and type(exc).__name__ != meta.get("expect_exc"):
             return dict(res, outcome="accepted-run-raised", detail=f"{type(exc).__name__}: {exc}"[:160])
         reached = leaves if meta.get("runtime") is None else leaves & set(meta["runtime"])
+        reached = reached - set(meta.get("not_run") or ())
         res["missing_run"] = reached - set(log)
         return dict(res, outcome="accepted-run-completed", detail="")
     finally:
@@ -298,6 +309,15 @@ def _strip_misplaced_dstar(n, parent=None, idx=None):
     here = t in ("List", "Tuple", "Set", "FStr") or (t == "Expr" and G.head_of(n) in KWARGS_OK_HEADS_NOT)
     if t == "List" and parent is not None and G.head_of(parent) == "defclass" and idx == 3:
         here = False        # class bases accept keyword arguments
+    if t == "List" and parent is not None and G.head_of(parent) in ("fn", "defn", "annotate"):
+        # parameter lists and :tp lists spell **kwargs / ParamSpec with #**; only the decorator
+        # list of defn (a list before the function's name, not after :tp) is an element slot
+        sibs = parent["c"]
+        name_at = next((i for i, c in enumerate(sibs) if i >= 1 and (
+            c["t"] == "Sym" or (G.head_of(c) == "annotate" and len(c["c"]) > 1 and c["c"][1]["t"] == "Sym"))),
+            len(sibs))
+        after_tp = idx >= 1 and sibs[idx - 1]["t"] == "Kw" and sibs[idx - 1]["v"] == "tp"
+        here = G.head_of(parent) == "defn" and idx < name_at and not after_tp
     out = []
     for i, c in enumerate(kids):
         if _is_dstar(c) and (here or (t == "FComp" and i >= 1)):
@@ -326,6 +346,7 @@ def _truncate_dstar(ir):
 
 
 MECHANISMS = [
+    # (return-annotation-statements-dropped was repaired in /repo: a repaired mechanism is not attributed)
     ("single-operand-comparison-drops-operand", lambda ir: _pad_cmp1(ir) != ir, _pad_cmp1),
     ("unpack-mapping-surplus-operands-dropped", lambda ir: _truncate_dstar(ir) != ir, _truncate_dstar),
     ("unpack-mapping-dropped-outside-call-or-dict", _has_misplaced_dstar, _strip_misplaced_dstar),
@@ -391,7 +412,8 @@ def cases(seed, tier, shard, nshards):
         i += 1
         ir, g = G.gen_leafform(rng, rng.choice([1, 2, 3, nest]))
         yield {"ir": ir, "kinds": sorted(g.kinds), "unpacks": g.unpacks, "text": G.show(ir),
-               "meta": {"special": g.special, "runtime": g.runtime, "expect_exc": g.expect_exc}}
+               "meta": {"special": g.special, "runtime": g.runtime, "expect_exc": g.expect_exc,
+                        "not_run": g.not_run}}
 
 
 def setup_worker(tier, seed):
